@@ -1,4 +1,5 @@
 #![cfg_attr(feature = "nightly", feature(allocator_api))]
+pub mod aead;
 pub mod core;
 pub mod models;
 pub mod props;
